@@ -587,6 +587,78 @@ def run(prog, ctx):
             verdict = None
         res.tri(verdict, "C10.F", "C10.F|%s" % f.id, "%s: %s" % (f.id, wit), f.id)
     res.rule("C10.F", n_f, 1, "front-end rank shortcuts vs flushed state")
+
+    # ---------------- C10.P cdf / pmf built from rank: cdf pushes rank(p) for the split points in their order and ends with the
+    # constant 1; pmf differences the cdf in place from the back (an ascending in-place pass would subtract already-differenced
+    # values; a pass that includes index 0 reads index -1).  Unrecognised shapes are undecided.
+    n_p = 0
+    fc, fp_ = C.fn_one(prog, V, "cdf"), C.fn_one(prog, V, "pmf")
+    if fc is not None:
+        sc = Sym(prog, fc)
+        loops_c = sc.loops()
+        in_loop = set().union(*[b for _h, b in loops_c]) if loops_c else set()
+        pushes = [(b, st_, sc.at(b, "t").operand(st_["args"][1])) for b, st_ in fc.calls() if (st_.get("callee") or "").endswith("::push") and len(st_["args"]) == 2]
+        lp = [(b, v) for b, _s, v in pushes if b in in_loop]
+        post = [(b, v) for b, _s, v in pushes if b not in in_loop]
+        n_p += 1
+        if len(lp) == 1:
+            b, v = lp[0]
+            calls = [x for x in sym.walk(v) if x[0] == "call"]
+            ranks = [x for x in calls if x[1].rsplit("::", 1)[-1] == "rank"]
+            rev = any(x[1].rsplit("::", 1)[-1] == "rev" for x in calls)
+            from_points = any(x[0] == "param" and fc.local_name(x[1]) == fc.local_name(2) for x in sym.walk(v)) if ranks else False
+            ok = None if not ranks or not from_points else (not rev)
+            res.tri(ok, "C10.P", "C10.P|cdf|order", "%s: the ranks are pushed for the split points in reverse order" % fc.id, fc.id)
+        else:
+            res.tri(None, "C10.P", "C10.P|cdf|order", "cdf does not push one rank per split point in a loop", fc.id)
+        n_p += 1
+        consts = [(b, v) for b, v in post if v[0] == "const"]
+        if len(post) == 1 and len(consts) == 1 and lp:
+            h = loops_c[0][0]
+            after = sc._reaches(h, consts[0][0]) if hasattr(sc, "_reaches") else True
+            res.tri(bool(after) and consts[0][1][1] == 1.0, "C10.P", "C10.P|cdf|last",
+                    "%s: the last cumulative value pushed is %r, not 1.0 after the loop" % (fc.id, consts[0][1][1]), fc.id)
+        elif not post and lp:
+            res.tri(False, "C10.P", "C10.P|cdf|last", "%s: no final cumulative value 1.0 is pushed after the ranks of the split points" % fc.id, fc.id)
+        else:
+            res.tri(None, "C10.P", "C10.P|cdf|last", "cdf tail not recognised", fc.id)
+    if fp_ is not None:
+        sp = Sym(prog, fp_)
+        n_p += 1
+        verdict, wit = None, "pmf differencing pass not recognised"
+        for b in fp_.blocks:
+            if b.cleanup:
+                continue
+            for st in b.stmts:
+                if st[0] != "=" or isinstance(st[1], int) or st[2][0] not in ("bin", "checked"):
+                    continue
+                try:
+                    e = sp.at(b.idx, "t").rvalue(st[2])
+                except Exception:
+                    continue
+                if not (e[0] == "bin" and e[1] == "Sub" and e[2][0] == "call" and e[3][0] == "call"):
+                    continue
+                l_, r_ = e[2], e[3]
+                if not (l_[1].rsplit("::", 1)[-1] == "index_mut" and r_[1].rsplit("::", 1)[-1] == "index" and len(l_[2]) == 2 and len(r_[2]) == 2):
+                    continue
+                i_, j_ = l_[2][1], r_[2][1]
+                if not (j_[0] == "bin" and j_[1] == "Sub" and j_[2] == i_ and j_[3][:2] == ("const", 1)):
+                    continue
+                chain = [x for x in sym.walk(i_) if x[0] == "call"]
+                rng = [x for x in sym.walk(i_) if x[0] == "agg" and "Range" in x[1] and len(x[2]) == 2]
+                if not chain or chain[0][1].rsplit("::", 1)[-1] != "next" or len(rng) != 1:
+                    continue
+                rev = sum(1 for x in chain if x[1].rsplit("::", 1)[-1] == "rev") % 2 == 1
+                lo = rng[0][2][0]
+                incl = "Inclusive" in rng[0][1]
+                if not rev:
+                    verdict, wit = False, "the in-place pass `b[i] -= b[i-1]` runs upwards, so each bucket subtracts an already-differenced neighbour"
+                elif lo[0] == "const" and lo[1] == 0:
+                    verdict, wit = False, "the differencing pass includes index 0 and reads index -1"
+                elif lo[0] == "const" and lo[1] == 1 and not incl:
+                    verdict, wit = True, ""
+        res.tri(verdict, "C10.P", "C10.P|pmf|pass", "%s: %s" % (fp_.id, wit), fp_.id)
+    res.rule("C10.P", n_p, 3, "cdf / pmf construction from rank")
     res.explanation = ("the expression returned at each return site of rank()/quantile() is extracted with the branch decisions of every path to it and "
                        "summaries of the accumulation loops in front of it, and evaluated on %d sampled digest states satisfying the digest invariants; "
                        "range and monotonicity in the query are checked per site" % n_digests)
